@@ -535,8 +535,11 @@ def _r3(ctx):
 
     def core(blk):
         # from the l_star definition to the class maximum
+        st = next((x for x in blk if isinstance(x, ast.Assign) and isinstance(x.targets[0], ast.Attribute) and
+                   x.targets[0].attr == "l_star" and isinstance(x.value, ast.Name)), None)
+        loc = st.value.id if st is not None else None
         start = next((i for i, x in enumerate(blk) if isinstance(x, ast.Assign) and isinstance(x.targets[0], ast.Name)
-                      and x.targets[0].id == "l_star"), None)
+                      and x.targets[0].id == loc), None)
         if start is None:
             raise AnalysisError("class-limit block without l_star definition")
         return blk[start:]
